@@ -13,4 +13,4 @@ for i in chk.instances:
     if i["rule"].startswith(pref):
         print(i["rule"], i["where"].split(":")[-1], "|", i["construct"][:110], "|", i.get("verdict"), "|", (i.get("detail") or "")[:150])
 for v in chk.violations:
-    print("VIOL", v["rule"], v["where"], v["construct"][:100], v["detail"][:200])
+    print("VIOL", v["rule"], v["where"], v["construct"][:100], str(v.get("detail") or v.get("message") or v)[:200])
